@@ -242,24 +242,12 @@ func runC06(c *eng.Ctx, tier string) {
 func c06Forbidden(c *eng.Ctx) {
 	p := c.P
 	n := 0
-	for _, f := range p.PkgFuncs("server") {
-		eng.Instrs(f, func(in ssa.Instruction) {
-			call, ok := in.(*ssa.Call)
-			if !ok {
-				return
-			}
-			var code ssa.Value
-			if eng.CalleeIs(&call.Call, "net/http", "Error") {
-				code = call.Call.Args[2]
-			} else if call.Call.IsInvoke() && call.Call.Method.Name() == "WriteHeader" {
-				code = call.Call.Args[0]
-			} else {
-				return
-			}
-			k, isK := eng.ConstInt(code)
+	for _, er := range errReplies(p, "server") {
+		func() {
+			f, in := er.Fn, er.In
+			k, isK := eng.ConstInt(er.Code)
 			if !isK {
-				// status passed through a helper parameter: judged at the helper's call sites by C08
-				return
+				return // a non-constant status is reported by C08 (R-C08-4)
 			}
 			if k != 403 {
 				return
@@ -279,7 +267,7 @@ func c06Forbidden(c *eng.Ctx) {
 				}
 			}
 			c.Check(okk, "R-C06-3", f, in.Pos(), "403 reply in "+eng.FName(f), "a request is answered 403 only at the no-browsers gate or when the store reported ErrAccessDenied (having audited the denial)", "holding: "+eng.FactsString(in))
-		})
+		}()
 	}
 	if n < 3 {
 		c.Undecided("R-C06-3", nil, 0, "403 replies in package server", "fewer than 3 found")
